@@ -9,6 +9,7 @@ import Driver.VerDrv
 import Driver.DiagDrv
 import Driver.TcDrv
 import Driver.SrcDrv
+import Driver.TailDrv
 
 def main (args : List String) : IO UInt32 := do
   match args with
@@ -23,4 +24,5 @@ def main (args : List String) : IO UInt32 := do
   | ["diag"] => DiagDrv.main; return 0
   | ["tc"] => TcDrv.main; return 0
   | ["src"] => SrcDrv.main; return 0
+  | ["tail"] => TailDrv.main; return 0
   | _ => IO.eprintln "usage: nmdrv gc|..."; return 2
